@@ -1,3 +1,42 @@
-/- C09 — property theorems are added when the printer / reparse model lands; until then this property is not claimed. -/
+import TemplVerif.Model.Reparse
+import TemplVerif.Proofs.Printer
+/-
+C09 — formatting is idempotent.
+
+`templ fmt` is print ∘ parse. On the FRAGMENT modelled (every node and attribute kind except script / raw elements and
+`{{ }}` blocks; Go expressions single gofmt-stable lines without comments; constant attribute values that need no
+re-escaping) `Printer.body` is the printer byte for byte, and `Reparse.body` is parse ∘ print as a function of the tree —
+both checked against the real formatter and the real parser on every run. Proved, for EVERY tree of the fragment that
+satisfies the invariants of parser-built trees (`wfNodes`, itself checked on every parsed input):
+    print (parse (print t)) = print t,
+i.e. fmt (fmt x) = fmt x, and the re-parsed tree satisfies the invariants again.
+Outside the fragment idempotence is checked on the implementation only (fmt(fmt x) = fmt x on every input).
+-/
 namespace TemplVerif.Props.C09
+open TemplVerif TemplVerif.Ast TemplVerif.Printer TemplVerif.Reparse
+
+theorem C09_print_reparse (b : Nodes) (hf : nodesInFragment b = true) (hw : wfNodes b = true) :
+    Printer.body (Reparse.body b) = Printer.body b :=
+  Proofs.Printer.print_reparse b hf hw
+
+theorem C09_wf_reparse (b : Nodes) (hf : nodesInFragment b = true) (hw : wfNodes b = true) :
+    wfNodes (Reparse.body b) = true ∧ nodesInFragment (Reparse.body b) = true :=
+  Proofs.Printer.wf_reparse b hf hw
+
+/-- Every later pass is a fixed point as well. -/
+theorem C09_stable (b : Nodes) (hf : nodesInFragment b = true) (hw : wfNodes b = true) :
+    Printer.body (Reparse.body (Reparse.body b)) = Printer.body b := by
+  obtain ⟨hw', hf'⟩ := C09_wf_reparse b hf hw
+  rw [C09_print_reparse _ hf' hw', C09_print_reparse b hf hw]
+
+/-- Non-vacuity: `<div><b>x</b> if c {⏎y⏎}</div>` as the parser builds it from a one-line spelling — the printer
+    breaks the line before the `if`, re-parsing records the break, and printing again gives the same 44 bytes. -/
+example :
+    let t : Nodes := .cons (.element [100, 105, 118] .nil
+        (.cons (.element [98] .nil (.cons (.text [120] .none) .nil) .horiz false false)
+          (.cons (.ifE [99] (.cons (.ws [10]) (.cons (.text [121] .vert) .nil)) .nil .nil) .nil)) .vert false true) .nil
+    nodesInFragment t = true ∧ wfNodes t = true ∧ (Printer.body t).length = 44 ∧
+    Reparse.body t ≠ t ∧ Printer.body (Reparse.body t) = Printer.body t := by
+  decide
+
 end TemplVerif.Props.C09
